@@ -186,31 +186,7 @@ def run(ctx):
     _located(ctx)
 
     # ---- R4 ----------------------------------------------------------------------
-    ctx.rule('C05.R4', 'visit_Module counts the maximal prefix of {docstring expression, from __future__ import} '
-             'statements and inserts the star import at that index with a zero-width slice')
-    mod = repo.mod('beartype.claw._ast._kind.clawastmodule')
-    vm = repo.find_def(mod.name, 'BeartypeNodeTransformerModuleMixin.visit_Module')
-    loops = [x for x in walk_shallow(vm) if isinstance(x, ast.For) and norm(x.iter).endswith('.body')]
-    ok, detail = False, 'no loop over the module body'
-    counter = None
-    for lp in loops:
-        brk = [i for i in lp.body if isinstance(i, ast.If) and any(isinstance(b, ast.Break) for b in i.body)]
-        inc = [a for a in lp.body if isinstance(a, ast.AugAssign) and isinstance(a.op, ast.Add) and norm(a.value) == '1']
-        if brk and inc:
-            t = norm(brk[0].test)
-            counter = dotted(inc[0].target)
-            ok = t.startswith('not (') and 'Expr' in t and 'Constant' in t and 'ImportFrom' in t and "'__future__'" in t \
-                and lp.body.index(brk[0]) < lp.body.index(inc[0])
-            detail = f'break test: {t[:140]}'
-    ctx.ob('C05.R4', 'visit_Module:prefix-scan', mod.where(vm), 'the scan stops at the first statement that is neither '
-           'a docstring expression nor a __future__ import', ok, detail)
-    ins = [a for a in walk_shallow(vm) if isinstance(a, ast.Assign) and isinstance(a.targets[0], ast.Subscript)
-           and norm(a.targets[0].value).endswith('.body') and isinstance(a.targets[0].slice, ast.Slice)]
-    ok = len(ins) == 1 and counter is not None and dotted(ins[0].targets[0].slice.lower) == counter \
-        and norm(ins[0].targets[0].slice.upper) == '0'
-    ctx.ob('C05.R4', 'visit_Module:insert-at-prefix-end', mod.where(vm),
-           'the import is inserted at the counted index without replacing anything', ok,
-           norm(ins[0])[:100] if ins else 'no slice insertion')
+    _module_prefix(ctx)
 
     # ---- R5 ----------------------------------------------------------------------
     _annassign(ctx)
@@ -255,17 +231,27 @@ def run(ctx):
             if isinstance(x, ast.Call) and isinstance(x.func, ast.Attribute) and norm(x.func.value) == 'node.decorator_list' \
                     and x.func.attr in ('insert', 'append'):
                 out.append('ins')
-            if isinstance(x, ast.Call) and dotted(x.func) == 'self._decorate_node_beartype_last_before_decor_hostile':
+            if isinstance(x, ast.Call) and dotted(x.func) in helper_calls:
                 out.append('helper')
         return out
-    for fname in ('_decorate_node_beartype', '_decorate_node_beartype_last_before_decor_hostile'):
+    # helpers of the dispatch are found by role: methods of the same class that an arm of the dispatch calls
+    # with the decorator node (whatever they are called)
+    icls = repo.find_def(im.name, 'BeartypeNodeTransformerImportMixin')
+    own = {f.name for f in icls.body if isinstance(f, ast.FunctionDef)}
+    helper_calls = set()
+    for c in walk_shallow(dn):
+        if isinstance(c, ast.Call) and isinstance(c.func, ast.Attribute) and dotted(c.func.value) == 'self' and c.func.attr in own \
+                and any(k.arg == 'node_beartype_decorator' or dotted(k.value) == 'node_beartype_decorator' for k in c.keywords):
+            helper_calls.add(f'self.{c.func.attr}')
+    for fname in ['_decorate_node_beartype'] + sorted(h.split('.', 1)[1] for h in helper_calls):
         fn = repo.find_def(im.name, f'BeartypeNodeTransformerImportMixin.{fname}')
         try:
             paths = enumerate_paths(fn.body, ev)
         except OverflowError:
             ctx.require(False, f'{fname}: too many paths')
         bad = [(e, s) for e, s in paths if s != 'raise' and len(e) != 1]
-        ctx.ob('C05.R7', f'placement:{fname}:exactly-one-insertion', im.where(fn),
+        role = 'dispatch' if fname == '_decorate_node_beartype' else 'decorator-hostile-helper'
+        ctx.ob('C05.R7', f'placement:{role}:exactly-one-insertion', im.where(fn),
                f'every non-raising path of {fname} inserts the decorator exactly once ({len(paths)} paths)',
                not bad, f'a path performs {len(bad[0][0]) if bad else 0} insertions')
 
@@ -501,6 +487,78 @@ def _route_selection(ctx, RULE):
         F.stubs.update(saved)
 
 
+def _module_prefix(ctx):
+    """R4 by interpretation: visit_Module over abstract module bodies."""
+    from . import _gen
+    repo = ctx.repo
+    ctx.rule('C05.R4', 'visit_Module, interpreted over abstract module bodies (every prefix of 0–3 statements drawn from '
+             '{docstring expression, from __future__ import}, followed by nothing, by an ordinary statement, or by an '
+             'ordinary statement and a late docstring-like expression): the star import is inserted exactly after the '
+             'maximal preamble, nothing is removed or reordered, and a module consisting only of a preamble is unchanged')
+    F = _gen.engines(ctx)[0].f
+    cls = F.const('beartype.claw._ast._kind.clawastmodule', 'BeartypeNodeTransformerModuleMixin')
+    fn = cls.find('visit_Module')
+    ctx.require(isinstance(fn, FuncVal), 'anchor vanished: visit_Module')
+    mod = repo.mod('beartype.claw._ast._kind.clawastmodule')
+    saved_stubs, saved_inst = dict(F.stubs), F.isinstance_hook
+
+    def inst(obj, c):
+        if isinstance(obj, _ANode):
+            nm = getattr(c, 'name', repr(c)).split('.')[-1]
+            return nm == obj.kind or (nm == 'AST')
+        return saved_inst(obj, c) if saved_inst else None
+    F.isinstance_hook = inst
+    F.stubs['beartype._util.ast.utilastmake.make_node_importfrom'] = \
+        lambda e, a, k: _ANode('ImportFrom', module=k.get('module_name'), injected=True, sibling=k.get('node_sibling'))
+
+    class _Self(AObj):
+        pass
+    doc = lambda: _ANode('Expr', value=_ANode('Constant', value='doc'))
+    fut = lambda: _ANode('ImportFrom', module='__future__')
+    stmt = lambda: _ANode('Assign', value=_ANode('Constant', value=1))
+    late = lambda: _ANode('Expr', value=_ANode('Constant', value='not a docstring'))
+    imp = lambda: _ANode('ImportFrom', module='os')
+    n = 0
+    agg = {}
+    try:
+        import itertools
+        prefixes = [()] + [p_ for k in (1, 2, 3) for p_ in itertools.product((doc, fut), repeat=k)]
+        tails = {'nothing': (), 'statement': (stmt,), 'ordinary-import-first': (imp, stmt), 'statement-then-late-expression': (stmt, late, fut)}
+        for pre in prefixes:
+            for tname, tail in tails.items():
+                body = [mk() for mk in pre] + [mk() for mk in tail]
+                orig = list(body)
+                node = _ANode('Module', body=body)
+                s_ = _Self()
+                s_.generic_visit = lambda node_: node_
+                try:
+                    out = _call_function(F, fn, [s_, node], {}, 1)
+                except (_Abort, _Raise) as ex:
+                    ctx.require(False, f'cannot interpret visit_Module: {ex}')
+                n += 1
+                got = out.body if isinstance(out, _ANode) else None
+                k = len(pre)
+                want_inserted = bool(tail)
+                ok = got is not None and [x for x in got if not getattr(x, 'injected', False)] == orig and (
+                    (not want_inserted and len(got) == len(orig)) or
+                    (want_inserted and len(got) == len(orig) + 1 and getattr(got[k], 'injected', False)))
+                key = 'preamble-only-module-unchanged' if not tail else 'import-inserted-right-after-the-preamble'
+                a_ = agg.setdefault(key, [0, None])
+                a_[0] += 1
+                if not ok and a_[1] is None:
+                    a_[1] = (f'body [{", ".join(x.kind + (":" + str(getattr(x, "module", "")) if x.kind == "ImportFrom" else "") for x in orig)}] '
+                             f'({len(pre)} preamble statements) becomes '
+                             f'[{", ".join(("<beartype import>" if getattr(x, "injected", False) else x.kind) for x in (got or []))}]')
+    finally:
+        F.stubs.clear()
+        F.stubs.update(saved_stubs)
+        F.isinstance_hook = saved_inst
+    for key in ('import-inserted-right-after-the-preamble', 'preamble-only-module-unchanged'):
+        cnt, why = agg.get(key, [0, 'no body of this class was evaluated'])
+        ctx.ob('C05.R4', f'visit_Module:{key}', mod.where(fn.node), f'{key} ({cnt} abstract module bodies)', why is None and cnt > 0, why or '')
+    ctx.floor('C05.R4', n, 50, 'abstract module bodies')
+
+
 def _dispatch_and_publication(ctx):
     """R6 (route selection of beartype_object) and R8 (the configuration a module is transformed
     with is the configuration its injected code finds at run time)."""
@@ -605,9 +663,16 @@ def _annassign(ctx):
         F.stubs[mk + nm] = maker(kind)
     F.ext_stubs['ast.unparse'] = lambda e, a, k: 'obj'
     F.stubs['beartype._util.text.utiltextansi.color_attr_name'] = lambda e, a, k: 'name'
+    from sa.fold import BoundMethod
 
     class _Self(AObj):
-        pass
+        """Abstract transformer instance: explicit attributes first, then the methods of the real mixin class."""
+
+        def __getattr__(self, name):
+            f_ = cls.find(name)
+            if isinstance(f_, FuncVal):
+                return BoundMethod(self, f_)
+            raise AttributeError(name)
     n = 0
     try:
         # target kinds of the grammar; an attribute target is taken with every kind of parent expression
